@@ -25,3 +25,24 @@ pub proof fn lemma_iso_year_jan4(y: int)
     lemma_wd(dn(y, 1, 4));
     lemma_wd(dn(y + 1, 1, 4));
 }
+
+// consecutive day numbers are consecutive Gregorian dates
+pub proof fn lemma_civil_succ(n: int)
+    requires date_in_range(n), date_in_range(n + 1)
+    ensures ({ let (y, m, d) = civil(n); civil(n + 1) == succ(y, m, d) })
+{
+    lemma_civil_props(n);
+    let (y, m, d) = civil(n);
+    lemma_succ(y, m, d);
+    let s = succ(y, m, d);
+    assert(dn(s.0, s.1, s.2) == n + 1);
+    assert(1 <= s.0 <= 9999) by {
+        if s.0 == 10000 {
+            lemma_range_ends();
+            lemma_year_step(9999);
+            assert(dn(10000, 1, 1) == 2932897);
+        }
+    }
+    assert(date_ok(s.0, s.1, s.2));
+    lemma_civil_unique(n + 1);
+}
